@@ -11,8 +11,13 @@ tvars == <<l, viol, seen>>
 TInit == PInit /\ l = 1 /\ viol = <<>> /\ seen = {}
 
 Fresh == Violated \ seen
+\* Every failed condition is recorded, but the list is bounded: beyond MaxRecords records only
+\* conditions with a name not yet recorded are added (a tree with an open defect produces tens
+\* of thousands of identical findings, and the growing list would dominate validation time).
+MaxRecords == 400
+RecordedNames == UNION {viol[k].names : k \in 1..Len(viol)}
 Recorded ==
-    IF l > 1 /\ Fresh # {}
+    IF l > 1 /\ Fresh # {} /\ (Len(viol) < MaxRecords \/ ~(Fresh \subseteq RecordedNames))
     THEN Append(viol, [run |-> Trace[l-1].run, seq |-> Trace[l-1].seq, names |-> Fresh, l |-> l - 1])
     ELSE viol
 
